@@ -49,6 +49,8 @@ type Profile struct {
 	ModeBEvery   int      // k>0: every k-th run uses the interposed (mode B) node
 	BigBatchP    float64  // probability that a pause-cross-chains message carries a batch around the limit of 100 identifiers
 	CrashP       float64  // probability that the node crashes between executing and committing a block (and re-executes it after the restart)
+	ByzPlainP    float64  // probability that a byzantine packet names a receiver other than the orbiter account
+	BigPassP     float64  // probability of a passthrough payload of 15000-23000 bytes
 	SimP         float64  // probability that a block's transactions are first simulated on the node (gas estimation; discarded)
 	GhostTokenP  float64  // per step: probability of starting the "token created only in a simulation" scenario
 	InjectP      float64  // mode-B runs: probability that a lone delivery gets an injected downstream failure
@@ -391,8 +393,13 @@ func viaConstructors(s *Sim, p *MPayload) (string, bool) {
 func (g *genState) passthrough(s *Sim, p *MPayload) {
 	r := g.r
 	lim := int(s.Model.Limit)
-	if lim > 20000 {
-		lim = 20000
+	if lim > 23000 {
+		lim = 23000 // about the most a memo of legal length (32768 characters, base64) can carry
+	}
+	if r.Bool(g.prof.BigPassP) {
+		// large payloads whatever the limit in force: the twin worlds set the limit to exactly their length
+		p.Passthrough, p.PTNull = r.Bytes(15000+r.Intn(8000)), false
+		return
 	}
 	var n int
 	switch r.Pick(g.prof.PassW) {
@@ -577,6 +584,10 @@ var refuseEdits = []refuseEdit{
 	}},
 	{"C14:missing-attributes", func(g *genState, s *Sim, p *MPayload, A *big.Int) (string, bool) {
 		return `{"orbiter":{"forwarding":{"protocol_id":"` + p.Proto + `"}}}`, true
+	}},
+	{"C14:empty-memo", func(g *genState, s *Sim, p *MPayload, A *big.Int) (string, bool) {
+		// ibc-go leaves the memo key out of the packet data altogether when the memo is empty
+		return "", true
 	}},
 	{"C14:not-json", func(g *genState, s *Sim, p *MPayload, A *big.Int) (string, bool) {
 		return pickStr(g.r, []string{"orbiter", "{", `{"orbiter":`, "[]", "null", "\x00\x01", ""}), true
@@ -997,7 +1008,7 @@ func (g *genState) genByz(s *Sim) Op {
 	case 1:
 		data = []byte(pickStr(r, []string{" ", "{}", "null", "[]", `{"denom":1}`, `{"amount":null}`}))
 	default:
-		denoms := []string{prefix + DenomUSDC, prefix + "transfer/channel-9/" + DenomUSDC, DenomUSDC, prefix, prefix + "/", prefix + "a/b", "transfer/channel-77/" + DenomUSDC, prefix + DenomUSDC + "/", prefix + "ibc/ABCDEF", strings.ToUpper(prefix + DenomUSDC)}
+		denoms := []string{prefix + DenomUSDC, prefix + "transfer/channel-9/" + DenomUSDC, DenomUSDC, prefix, prefix + "/", prefix + "a/b", "transfer/channel-77/" + DenomUSDC, prefix + DenomUSDC + "/", prefix + "ibc/ABCDEF", strings.ToUpper(prefix + DenomUSDC), prefix + "a", prefix + "1abc", prefix + "ab", prefix + DenomOther}
 		amts := []string{"1000", "0", "-1", "0x10", "1_000", "+5", " 7", "1e3", "", "115792089237316195423570985008687907853269984665640564039457584007913129639936", "115792089237316195423570985008687907853269984665640564039457584007913129639935", "1.0"}
 		d := map[string]any{"denom": denoms[r.Intn(len(denoms))], "amount": amts[r.Intn(len(amts))], "sender": s.Env.Remote[op.Pair][0].Addr.String(), "receiver": orb, "memo": memo}
 		if r.Intn(4) == 0 {
@@ -1015,6 +1026,10 @@ func (g *genState) genByz(s *Sim) Op {
 		if r.Intn(8) == 0 {
 			d["extra"] = 1
 		}
+		if r.Bool(g.prof.ByzPlainP) {
+			// not for the orbiter: whatever the wrapped application does with it, the middleware adds nothing
+			d["receiver"] = pickStr(r, []string{s.Env.Rcpt[0].Addr.String(), s.Env.Noble[1].Addr.String(), s.Env.Dust.String(), "", "x"})
+		}
 		escaped := ""
 		if r.Intn(6) == 0 {
 			// the same receiver string written with JSON escapes: identical after decoding, different as raw bytes
@@ -1027,6 +1042,22 @@ func (g *genState) genByz(s *Sim) Op {
 			q := *p
 			q.Passthrough, q.PTNull = r.Bytes(24000+r.Intn(40000)), false
 			d["memo"], d["denom"], d["amount"] = q.Canonical(), prefix+DenomUSDC, "1000"
+		}
+		if r.Intn(4) == 0 {
+			// keys left out or null: whatever a decoder does with an absent field, it is not the previous packet's value
+			ks := []string{"receiver", "memo", "sender", "denom", "amount"}
+			for n := 1 + r.Intn(2); n > 0; n-- {
+				k := ks[r.Intn(len(ks))]
+				if r.Intn(3) == 0 {
+					d[k] = nil
+				} else {
+					delete(d, k)
+				}
+			}
+			if r.Intn(2) == 0 {
+				d["denom"], d["amount"] = prefix+DenomUSDC, fmt.Sprint(1000+r.Intn(100000))
+				delete(d, "memo")
+			}
 		}
 		data, _ = json.Marshal(d)
 		if escaped != "" {
@@ -1197,7 +1228,7 @@ func (g *genState) genOrbiterAdmin(s *Sim) Op {
 		}
 	default:
 		op.Msg = "UpdateParams"
-		op.N = uint64([]int{0, 0, 1, 16, 64, 100, 1000, 5000}[r.Intn(8)])
+		op.N = uint64([]int{0, 0, 1, 16, 64, 100, 1000, 5000, 16384, 16385, 24000}[r.Intn(11)])
 		if r.Intn(10) == 0 {
 			op.N = 4294967295
 		}
